@@ -515,6 +515,11 @@ def kind_dispatchers(ctx: Ctx):
                 cls = norm(n.args[1])
                 if any(k in cls for k in ("bool", "float", "int", "str", "datetime", "Literal", "QualifiedName", "Identifier")):
                     out[q] = n.args[0].id
+                elif isinstance(n.args[1], ast.Name):
+                    # table-driven dispatch: `for value_type, encode in TABLE: if isinstance(value, value_type): ...`
+                    for l in walk_function(fi.node):
+                        if isinstance(l, ast.For) and any(isinstance(x, ast.Name) and x.id == n.args[1].id for x in ast.walk(l.target)):
+                            out[q] = n.args[0].id
             if isinstance(n, ast.Call) and call_name(n) == "type" and n.args and isinstance(n.args[0], ast.Name) and n.args[0].id in params - {"self"}:
                 out[q] = n.args[0].id
     return out
@@ -715,3 +720,59 @@ def c15_r11(ctx: Ctx, rule):
 
 RULES.setdefault("C15", []).append(Rule("C15.R11", "the counters behind node / cluster / annotation ids live for the whole prov_to_dot call", 1, c15_r11, "F-PATH",
                                         "every element is exactly one node: ids never collide across clusters"))
+
+
+# ------------------------------------------------------------------------------------------ C15.R12 what is drawn is the unified document; counters are bumped where they are read
+def c15_r12(ctx: Ctx, rule):
+    """(a) The top-level draw call of prov_to_dot is given the result of unified() (the un-unified argument only in the handler of a
+    failed unification).  (b) In every helper that builds a numbered id from counter slot i ("ann%d" % count[3]), the increment in
+    that helper is on the same slot i."""
+    res = RuleResult()
+    top = DOT + ".prov_to_dot"
+    fi = ctx.fn(top)
+    par = fi.params[0]
+    draws = [c for c in calls_in(fi.node) if call_name(c) == "_bundle_to_dot" and isinstance(c.func, ast.Name)]
+    if not draws:
+        raise AnalysisError("prov_to_dot: the top-level call of the bundle drawer was not found")
+    for c in draws:
+        a = c.args[1] if len(c.args) > 1 else None
+        ok = False
+        if isinstance(a, ast.Name) and a.id != par:
+            defs = [d for d in all_assignments(fi.node, a.id) if d is not None]
+            uni = [d for d in defs if isinstance(d, ast.Call) and call_name(d) == "unified"]
+            # other definitions are allowed only inside an except handler (the documented fallback)
+            others = [d for d in defs if d not in uni]
+            in_handler = all(any(isinstance(h, ast.ExceptHandler) and any(x is d for x in ast.walk(h)) for h in ast.walk(fi.node)) for d in others)
+            ok = bool(uni) and in_handler
+        elif isinstance(a, ast.Call) and call_name(a) == "unified":
+            ok = True
+        res.ob("prov_to_dot draws %s: the unified document (argument itself only after a failed unification): %s" % (norm(a) if a is not None else "?", ok))
+        if not ok:
+            res.fail(rule.id, "draws-un-unified", ctx.loc(top, c), "prov_to_dot draws `%s`, which is not the result of unified()" % (norm(a) if a is not None else "?"),
+                     "an identifier stated twice is drawn as two nodes with the same URL and two partial annotations")
+    n = 0
+    for q, f in ctx.p.functions.items():
+        if not q.startswith(top + ".<locals>."):
+            continue
+        reads = {}
+        for x in walk_function(f.node):
+            if isinstance(x, ast.BinOp) and isinstance(x.op, ast.Mod) and isinstance(x.left, ast.Constant) and isinstance(x.left.value, str) and re.fullmatch(r"[A-Za-z_]+%d", x.left.value) and isinstance(x.right, ast.Subscript) and isinstance(x.right.slice, ast.Constant):
+                reads[(norm(x.right.value), x.right.slice.value)] = x
+            if isinstance(x, ast.JoinedStr):
+                for v in x.values:
+                    if isinstance(v, ast.FormattedValue) and isinstance(v.value, ast.Subscript) and isinstance(v.value.slice, ast.Constant) and isinstance(v.value.value, ast.Name):
+                        reads[(v.value.value.id, v.value.slice.value)] = x
+        bumps = {(norm(x.target.value), x.target.slice.value) for x in walk_function(f.node) if isinstance(x, ast.AugAssign) and isinstance(x.target, ast.Subscript) and isinstance(x.target.slice, ast.Constant)}
+        for key, node in reads.items():
+            n += 1
+            ok = key in bumps
+            res.ob("%s: the id built from %s[%s] follows an increment of that same slot: %s" % (q.rsplit(".", 1)[1], key[0], key[1], ok))
+            if not ok:
+                res.fail(rule.id, "id-slot-not-bumped::%s::%s" % (q.rsplit(".", 1)[1], key[1]), ctx.loc(q, node), "%s numbers an id from %s[%s] but increments %s" % (q.rsplit(".", 1)[1], key[0], key[1], sorted(bumps) or "nothing"),
+                         "every annotation node is called ann0: Graphviz merges them and shows only the last record's attributes, linked to all records")
+    res.ob("numbered ids built from counter slots: %d" % n, nontrivial=False)
+    return res
+
+
+RULES.setdefault("C15", []).append(Rule("C15.R12", "prov_to_dot draws the unified document; each numbered id follows an increment of its own counter slot", 1, c15_r12, "F-PATH",
+                                        "every element is one node; every annotated record has its own annotation"))
